@@ -681,6 +681,38 @@ OPTIONS:
 	return opts, nil
 }
 
+// readPacketBytes reads the n bytes of packet data of the current block into buf (grown as needed).
+// n comes straight from the file: it must fit into what is left of the block, and for large
+// values the buffer grows as data actually arrives, so a corrupt capture length cannot make
+// the reader allocate more than about twice what the stream really contains.
+func (r *NgReader) readPacketBytes(buf []byte, n int) ([]byte, error) {
+	if uint32(n) > r.currentBlock.length {
+		return buf[:0], fmt.Errorf("capture length %d exceeds the remaining block length %d", n, r.currentBlock.length)
+	}
+	const step = 1 << 16
+	if n <= cap(buf) || n <= step {
+		if cap(buf) < n {
+			buf = make([]byte, n)
+		}
+		buf = buf[:n]
+		_, err := r.readBytes(buf)
+		return buf, err
+	}
+	buf = buf[:0]
+	for len(buf) < n {
+		m := n - len(buf)
+		if m > step {
+			m = step
+		}
+		l := len(buf)
+		buf = append(buf, make([]byte, m)...)
+		if _, err := r.readBytes(buf[l:]); err != nil {
+			return buf[:l], err
+		}
+	}
+	return buf, nil
+}
+
 // ReadPacketData returns the next packet available from this data source.
 // If WantMixedLinkType is true, ci.AncillaryData[0] contains the link type.
 func (r *NgReader) ReadPacketData() (data []byte, ci gopacket.CaptureInfo, err error) {
@@ -699,8 +731,7 @@ func (r *NgReader) ReadPacketDataWithOptions() (data []byte, ci gopacket.Capture
 		ci.AncillaryData = make([]interface{}, 1)
 		ci.AncillaryData[0] = r.ancil[0]
 	}
-	data = make([]byte, r.ci.CaptureLength)
-	if _, err = r.readBytes(data); err != nil {
+	if data, err = r.readPacketBytes(nil, r.ci.CaptureLength); err != nil {
 		return
 	}
 	r.currentBlock.length -= uint32(r.ci.CaptureLength)
@@ -746,16 +777,16 @@ func (r *NgReader) ZeroCopyReadPacketDataWithOptions() (data []byte, ci gopacket
 		ci.AncillaryData = r.ancil[:]
 	}
 	if cap(r.packetBuf) < ci.CaptureLength {
-		snaplen := int(r.ifaces[ci.InterfaceIndex].SnapLength)
-		if snaplen < ci.CaptureLength {
-			snaplen = ci.CaptureLength
+		// pre-size to the declared snap length when the packet respects it
+		if snaplen := int(r.ifaces[ci.InterfaceIndex].SnapLength); snaplen >= ci.CaptureLength && uint32(ci.CaptureLength) <= r.currentBlock.length {
+			r.packetBuf = make([]byte, snaplen)
 		}
-		r.packetBuf = make([]byte, snaplen)
 	}
-	data = r.packetBuf[:ci.CaptureLength]
-	if _, err = r.readBytes(data); err != nil {
+	if r.packetBuf, err = r.readPacketBytes(r.packetBuf, ci.CaptureLength); err != nil {
+		data = r.packetBuf
 		return
 	}
+	data = r.packetBuf
 	r.currentBlock.length -= uint32(r.ci.CaptureLength)
 	padding := (4 - r.ci.CaptureLength&3) & 3
 	if padding > 0 {
